@@ -111,6 +111,10 @@ def rewrite_sim(rel, text, arch, osname, counts):
     m += n
     text, n = re.subn(r'(as \*(?:const|mut) [A-Za-z0-9_:<>]+\))\.read\(\)', r'\1.sim_read()', text)
     m += n
+    text, n = re.subn(r'(\.cast(?:::<[^\n{}]*?>)?\(\))\.read\(\)', r'\1.sim_read()', text)
+    m += n
+    text, n = re.subn(r'(\.cast(?:::<[^\n{}]*?>)?\(\))\.write\(', r'\1.sim_write(', text)
+    m += n
     text, n = re.subn(r'\.write_(?:unaligned|volatile)\(', '.sim_write(', text)
     m += n
     if m:
